@@ -346,7 +346,15 @@ def subsetGlyphs (flags : Nat) (n2o : List (Nat × Nat)) : List ((Nat × Nat) ×
 
 /-- the byte offsets `write_glyf_loca` emits (before halving / encoding), one per loca entry,
 starting with the leading 0.  State: `last` (next new gid to be written), `offset`.
-`pad` = short format (glyphs padded to even length). -/
+`pad` = short format (glyphs padded to even length).
+
+This one function is the transcription of BOTH branches of `write_glyf_loca` (`loca_format == 0` and
+the `else` branch are the same three loops, differing only in `padded_size(g.len())` vs `g.len()` and in
+how `value` is encoded, which `writeGlyfLoca` applies afterwards):
+* `while last < gid { push(value); last += 1 }` — the retain-gids gap ids in front of a kept glyph get the
+  PREVIOUS end offset (`value` still holds it): `List.replicate (gid - last) offset`;
+* `offset += len; value = encode(offset); push(value); last += 1` — the glyph's own end offset `offset'`;
+* after the last glyph `while last < num_output_glyphs { push(value) }`: `List.replicate (nout - last) offset`. -/
 def locaOffsetsGo (pad : Bool) (nout : Nat) : List (Nat × Bytes) → Nat → Nat → List Nat
   | [], last, offset => List.replicate (nout - last) offset
   | (gid, g) :: rest, last, offset =>
